@@ -407,6 +407,8 @@ C('sample', 'null-slice', lambda g: ((_null_slice_tt(g), 40), dict(
     seed=seed_kw(g))), seeded=True)
 C('sample_square', 'unique', lambda g: ((tt(g, [3, 4, 2]), 5), dict(
     seed=seed_kw(g))), seeded=True)
+C('sample_square', 'unique-many', lambda g: ((tt(g, [6, 6, 6, 6], 2), 250),
+    dict(seed=seed_kw(g))), seeded=True)
 C('sample_square', 'not-unique', lambda g: ((tt(g, [3, 4, 2]), 5, False), dict(
     seed=seed_kw(g))), seeded=True)
 C('sample_lhs', 'list', lambda g: (([3, 4, 2], 7), dict(seed=seed_kw(g))),
